@@ -569,6 +569,194 @@ const DEF_NAMES: [&str; 22] = [
   "A-1 / B.2",
 ];
 
+
+// ---- family `any`: the type reference `Any` in every position where an item definition can carry a type reference
+// (a definition that only refers to `Any`, a definition referring to such a definition, a component, a component of
+// a component, the item type of a collection, of a collection of collections, a component of the items of a
+// collection, a component that is a collection of `Any`, `Any` restricted by allowed values; `Any` written with white
+// space around it), on the input and on the output side.  The expectation is written out here from the one fact
+// "every value conforms to Any": a value in an `Any` position is handed on as it is, whatever it is; the positions
+// beside it (a number component, the list shape of a collection) keep their own rule.
+
+/// the values put into an `Any` position (FEEL text)
+fn any_values() -> Vec<&'static str> {
+  vec![
+    "null",
+    "true",
+    "2",
+    "\"a\"",
+    "date(\"2020-01-01\")",
+    "time(\"10:00:00\")",
+    "date and time(\"2020-01-01T10:00:00\")",
+    "duration(\"P1D\")",
+    "duration(\"P1Y\")",
+    "[]",
+    "[1, \"a\"]",
+    "[null]",
+    "[[1], {a: 1}]",
+    "{}",
+    "{a: 1}",
+    "{b: {c: null}}",
+  ]
+}
+
+struct AnyScenario {
+  what: &'static str,
+  defs: Defs,
+  top: &'static str,
+  /// (input value, value that must reach the decision logic), both FEEL text
+  input: Vec<(String, String)>,
+  /// (result of the logic, typed result that must be returned)
+  output: Vec<(String, String)>,
+  /// values compared with the model only (see the comment at the place of use)
+  model_only: Vec<String>,
+}
+
+fn any_library() -> Vec<AnyScenario> {
+  let s = |x: &str| x.to_string();
+  let same = |f: &dyn Fn(&str) -> String| -> Vec<(String, String)> { any_values().iter().map(|v| (f(v), f(v))).collect() };
+  let is_list = |v: &str| v.starts_with('[');
+  let mut out = vec![];
+  for any in ["Any", " Any ", "\n\tAny\n"] {
+    let a = || Item::Ref(any.to_string(), Av::None);
+    let la = || Item::CollRef(any.to_string(), Av::None);
+    // a definition that is nothing but a reference to Any
+    out.push(AnyScenario { what: "definition referring to Any", defs: vec![(s("tA"), a())], top: "tA", input: same(&|v| s(v)), output: same(&|v| s(v)), model_only: vec![] });
+    // a definition referring to a definition referring to Any, written before it
+    out.push(AnyScenario { what: "reference to a definition referring to Any", defs: vec![(s("tA2"), Item::Ref(s("tA"), Av::None)), (s("tA"), a())], top: "tA2", input: same(&|v| s(v)), output: same(&|v| s(v)), model_only: vec![] });
+    // a component of the type Any beside a number
+    {
+      let defs = vec![(s("tC"), Item::Comp(vec![(s("a"), a()), (s("b"), Item::Simple(1, Av::None))], Av::None))];
+      let mut input = same(&|v| format!("{{a: {}, b: 2}}", v));
+      let mut output = same(&|v| format!("{{a: {}, b: 2}}", v));
+      for v in any_values() {
+        input.push((format!("{{a: {}, b: \"x\"}}", v), format!("{{a: {}, b: null}}", v)));
+        output.push((format!("{{a: {}, b: \"x\"}}", v), s("null")));
+        output.push((format!("[{{a: {}, b: 2}}]", v), format!("{{a: {}, b: 2}}", v)));
+      }
+      input.push((s("{b: 2}"), s("null")));
+      input.push((s("1"), s("null")));
+      output.push((s("{b: 2}"), s("null")));
+      output.push((s("1"), s("null")));
+      out.push(AnyScenario { what: "component of the type Any", defs, top: "tC", input, output, model_only: vec![] });
+    }
+    // a component whose type is a definition referring to Any; a component of a component
+    {
+      let defs = vec![(s("tC"), Item::Comp(vec![(s("a"), Item::Ref(s("tA"), Av::None)), (s("b"), Item::Simple(0, Av::None))], Av::None)), (s("tA"), a())];
+      let mut input = same(&|v| format!("{{a: {}, b: \"k\"}}", v));
+      input.push((s("{a: 1, b: 1}"), s("{a: 1, b: null}")));
+      out.push(AnyScenario { what: "component typed by a definition referring to Any", defs, top: "tC", input, output: same(&|v| format!("{{a: {}, b: \"k\"}}", v)), model_only: vec![] });
+      let defs = vec![(s("tD"), Item::Comp(vec![(s("c"), Item::Comp(vec![(s("a"), a())], Av::None))], Av::None))];
+      let mut input = same(&|v| format!("{{c: {{a: {}}}}}", v));
+      input.push((s("{c: 1}"), s("{c: null}")));
+      input.push((s("{c: {}}"), s("{c: null}")));
+      out.push(AnyScenario { what: "component of a component of the type Any", defs, top: "tD", input, output: same(&|v| format!("{{c: {{a: {}}}}}", v)), model_only: vec![] });
+    }
+    // a collection of Any: every list passes, whatever its items; anything else is no collection
+    {
+      let defs = vec![(s("tL"), la())];
+      let mut input: Vec<(String, String)> = vec![];
+      let mut output: Vec<(String, String)> = vec![];
+      for v in any_values() {
+        input.push((format!("[{}]", v), format!("[{}]", v)));
+        input.push((format!("[{}, 1]", v), format!("[{}, 1]", v)));
+        input.push((format!("[\"z\", {}, null]", v), format!("[\"z\", {}, null]", v)));
+        input.push((s(v), if is_list(v) { s(v) } else { s("null") }));
+        output.push((format!("[{}, 1]", v), format!("[{}, 1]", v)));
+        // a result that is no list is wrapped into a list of one item (null conforms as it is)
+        output.push((s(v), if is_list(v) || v == "null" { s(v) } else { format!("[{}]", v) }));
+      }
+      out.push(AnyScenario { what: "collection of Any", defs, top: "tL", input, output, model_only: vec![] });
+    }
+    // a collection of a definition referring to Any; a collection of collections of Any
+    {
+      let defs = vec![(s("tLA"), Item::CollRef(s("tA"), Av::None)), (s("tA"), a())];
+      let mut input: Vec<(String, String)> = vec![];
+      for v in any_values().iter().filter(|v| **v != "null") {
+        input.push((format!("[{}]", v), format!("[{}]", v)));
+        input.push((format!("[1, {}]", v), format!("[1, {}]", v)));
+      }
+      input.push((s("[]"), s("[]")));
+      input.push((s("7"), s("null")));
+      // an item null: the loop over the items of a collection of a *referenced definition* takes an item that is
+      // evaluated to null for one that does not conform (as a null item of a collection of number does not) and cannot
+      // see that the definition stands for Any — the specification states it that way (items of such a collection
+      // are not null); compared with the model and the specification of the driver only
+      let model_only = vec![s("[null]"), s("[1, null]")];
+      out.push(AnyScenario { what: "collection of a definition referring to Any", defs, top: "tLA", input, output: vec![], model_only });
+      let defs = vec![(s("tM"), Item::CollRef(s("tL"), Av::None)), (s("tL"), la())];
+      let mut input: Vec<(String, String)> = vec![];
+      for v in any_values() {
+        input.push((format!("[[{}], []]", v), format!("[[{}], []]", v)));
+      }
+      input.push((s("[[1], 2]"), s("null")));
+      out.push(AnyScenario { what: "collection of collections of Any", defs, top: "tM", input, output: vec![], model_only: vec![] });
+    }
+    // the items of a collection have a component of the type Any; a component is a collection of Any
+    {
+      let defs = vec![(s("tLC"), Item::CollComp(vec![(s("a"), a()), (s("b"), Item::Simple(1, Av::None))], Av::None))];
+      let mut input = same(&|v| format!("[{{a: {}, b: 1}}, {{a: 1, b: 2}}]", v));
+      input.push((s("[{a: 1, b: 1}, {a: 1, b: \"x\"}]"), s("[{a: 1, b: 1}, {a: 1, b: null}]")));
+      input.push((s("[{a: 1, b: 1}, 5]"), s("null")));
+      out.push(AnyScenario { what: "component of the type Any in the items of a collection", defs, top: "tLC", input, output: vec![], model_only: vec![] });
+      let defs = vec![(s("tCL"), Item::Comp(vec![(s("xs"), la()), (s("n"), Item::Simple(1, Av::None))], Av::None))];
+      let mut input = same(&|v| format!("{{xs: [{}, 2], n: 1}}", v));
+      let mut output = same(&|v| format!("{{xs: [{}, 2], n: 1}}", v));
+      input.push((s("{xs: 5, n: 1}"), s("{xs: null, n: 1}")));
+      input.push((s("{xs: [], n: true}"), s("{xs: [], n: null}")));
+      output.push((s("{xs: [\"q\"], n: true}"), s("null")));
+      out.push(AnyScenario { what: "component that is a collection of Any", defs, top: "tCL", input, output, model_only: vec![] });
+    }
+    // Any restricted by allowed values (the values 1, 2): the allowed values are the whole test
+    {
+      let defs = vec![(s("tAv"), Item::Ref(any.to_string(), Av::Lits(1, 2))), (s("tUseAv"), Item::Comp(vec![(s("a"), Item::Ref(s("tAv"), Av::None))], Av::None))];
+      let input: Vec<(String, String)> = vec![(s("1"), s("1")), (s("2"), s("2")), (s("3"), s("null")), (s("\"a\""), s("null")), (s("[1]"), s("null")), (s("null"), s("null"))];
+      out.push(AnyScenario { what: "Any with allowed values", defs: defs.clone(), top: "tAv", input, output: vec![], model_only: vec![] });
+      let input: Vec<(String, String)> = vec![(s("{a: 1}"), s("{a: 1}")), (s("{a: 3}"), s("{a: null}")), (s("{a: \"a\"}"), s("{a: null}"))];
+      out.push(AnyScenario { what: "Any with allowed values", defs, top: "tUseAv", input, output: vec![], model_only: vec![] });
+    }
+  }
+  // names that are not the type Any: a reference to a definition that does not exist (no value conforms)
+  for near in ["any", "ANY", "Anything", "An y", "Any1", "tAny"] {
+    let defs = vec![(s("tN"), Item::Ref(near.to_string(), Av::None)), (s("tLN"), Item::CollRef(near.to_string(), Av::None))];
+    let input: Vec<(String, String)> = any_values().iter().map(|v| (s(v), s("null"))).collect();
+    out.push(AnyScenario { what: "a name that only resembles Any", defs: defs.clone(), top: "tN", input, output: vec![], model_only: vec![] });
+    let input: Vec<(String, String)> = vec![(s("[1]"), s("null")), (s("[]"), s("null")), (s("1"), s("null"))];
+    out.push(AnyScenario { what: "a name that only resembles Any", defs, top: "tLN", input, output: vec![], model_only: vec![] });
+  }
+  out
+}
+
+
+// ---- family `item-typeref-white-space`: white space (blanks, a tab, line breaks and indentation — element content
+// written on a line of its own) around the name an item definition refers to is no part of the name: the definition
+// means what it means without it.  Expectations written out for a number type `tB`.
+fn ws_library() -> Vec<AnyScenario> {
+  let s = |x: &str| x.to_string();
+  let mut out = vec![];
+  for (pre, post) in [(" ", " "), ("\n     ", "\n  "), ("\t", ""), ("", " "), ("\r\n", "\r\n")] {
+    let p = |n: &str| format!("{}{}{}", pre, n, post);
+    let defs: Defs = vec![
+      (s("tR"), Item::Ref(p("tB"), Av::None)),
+      (s("tL"), Item::CollRef(p("tB"), Av::None)),
+      (s("tC"), Item::Comp(vec![(s("a"), Item::Ref(p("tB"), Av::None)), (s("b"), Item::CollRef(p("tB"), Av::None))], Av::None)),
+      (s("tRR"), Item::Ref(p("tR"), Av::Cmp("lt", 3))),
+      (s("tB"), Item::Simple(1, Av::None)),
+    ];
+    let v = |a: &str, b: &str| (s(a), s(b));
+    out.push(AnyScenario { what: "reference", defs: defs.clone(), top: "tR", input: vec![v("1", "1"), v("\"a\"", "null"), v("null", "null"), v("[1]", "null")], output: vec![v("1", "1"), v("\"a\"", "null"), v("[1]", "1"), v("[1, 2]", "null")], model_only: vec![] });
+    out.push(AnyScenario { what: "collection of a reference", defs: defs.clone(), top: "tL", input: vec![v("[1, 2]", "[1, 2]"), v("[1, \"a\"]", "null"), v("1", "null"), v("[]", "[]")], output: vec![v("1", "[1]"), v("[1, 2]", "[1, 2]"), v("\"a\"", "null")], model_only: vec![] });
+    out.push(AnyScenario { what: "components", defs: defs.clone(), top: "tC", input: vec![v("{a: 1, b: [2]}", "{a: 1, b: [2]}"), v("{a: \"x\", b: [2]}", "{a: null, b: [2]}"), v("{a: 1, b: 2}", "{a: 1, b: null}")], output: vec![v("{a: 1, b: [2]}", "{a: 1, b: [2]}"), v("{a: \"x\", b: [2]}", "null")], model_only: vec![] });
+    out.push(AnyScenario { what: "reference to a reference, with allowed values", defs: defs.clone(), top: "tRR", input: vec![v("1", "1"), v("5", "null"), v("true", "null")], output: vec![v("1", "1"), v("true", "null")], model_only: vec![] });
+  }
+  // a definition *named* with blanks around the name is registered under that very text; a reference is looked up
+  // without the white space around it, so nothing refers to such a definition (compared with the model only)
+  let defs: Defs = vec![(s(" tP "), Item::Simple(1, Av::None)), (s("tQ"), Item::Ref(s(" tP "), Av::None)), (s("tQ2"), Item::Ref(s("tP"), Av::None))];
+  out.push(AnyScenario { what: "definition named with blanks around the name", defs: defs.clone(), top: "tQ", input: vec![], output: vec![], model_only: vec![s("1"), s("\"a\"")] });
+  out.push(AnyScenario { what: "definition named with blanks around the name", defs, top: "tQ2", input: vec![], output: vec![], model_only: vec![s("1"), s("\"a\"")] });
+  out
+}
+
 struct Case {
   family: &'static str,
   req: String,
@@ -811,6 +999,35 @@ pub fn run(cfg: &Cfg) -> Report {
     run_echo("duplicate-name", &defs, "tR", Sexp::tagged("named", vec![Sexp::str("tR")]), &values, &mut cases, &mut rep);
   }
 
+
+  // ---- any: the type reference Any inside item definitions (input side); expectations written out in `any_library`
+  let any_lib = any_library();
+  // (index into `cases`, expected value as FEEL text)
+  let mut any_expect: Vec<(usize, String, &'static str)> = vec![];
+  for sc in &any_lib {
+    for (v, expected) in &sc.input {
+      let before = cases.len();
+      run_echo("any", &sc.defs, sc.top, Sexp::tagged("named", vec![Sexp::str(sc.top)]), &[v.clone()], &mut cases, &mut rep);
+      if cases.len() > before {
+        any_expect.push((before, expected.clone(), sc.what));
+      }
+    }
+    run_echo("any", &sc.defs, sc.top, Sexp::tagged("named", vec![Sexp::str(sc.top)]), &sc.model_only, &mut cases, &mut rep);
+    rep.hit(&format!("any: {}", sc.what));
+  }
+  let ws_lib = ws_library();
+  for sc in &ws_lib {
+    for (v, expected) in &sc.input {
+      let before = cases.len();
+      run_echo("item-typeref-white-space", &sc.defs, sc.top, Sexp::tagged("named", vec![Sexp::str(sc.top)]), &[v.clone()], &mut cases, &mut rep);
+      if cases.len() > before {
+        any_expect.push((before, expected.clone(), "white space"));
+      }
+    }
+    run_echo("item-typeref-white-space", &sc.defs, sc.top, Sexp::tagged("named", vec![Sexp::str(sc.top)]), &sc.model_only, &mut cases, &mut rep);
+    rep.hit(&format!("item-typeref-white-space: {}", sc.what));
+  }
+
   // ---- output coercion
   let mut out_cases: Vec<Case> = vec![];
   // (index into `out_cases`, expected value as FEEL text or `null`, signature): expectations written out in the harness
@@ -942,6 +1159,30 @@ pub fn run(cfg: &Cfg) -> Report {
       let id: Vec<usize> = (0..defs.len()).collect();
       typed_results(&defs, &tops, &[id], &["decision"], sig_names, &mut out_cases, &mut out_expect, &mut rep);
     }
+    // white space around the referenced name, on the output side
+    let sig_ws = "typed result: white space around the name an item definition refers to changes the declared type of the result";
+    for sc in &ws_lib {
+      for (v, expected) in &sc.output {
+        let before = out_cases.len();
+        run_out_kind("decision", &sc.defs, Some(sc.top), Sexp::tagged("named", vec![Sexp::str(sc.top)]), v, &mut out_cases, &mut rep);
+        if out_cases.len() > before {
+          out_expect.push((before, expected.clone(), sig_ws));
+        }
+      }
+    }
+    // any on the output side: the result typed by each definition of `any_library`
+    let sig_any = "typed result: a result whose declared type contains Any differs from the expectation written out";
+    for sc in &any_lib {
+      for (v, expected) in &sc.output {
+        for kind in ["decision", "bkm", "service"] {
+          let before = out_cases.len();
+          run_out_kind(kind, &sc.defs, Some(sc.top), Sexp::tagged("named", vec![Sexp::str(sc.top)]), v, &mut out_cases, &mut rep);
+          if out_cases.len() > before {
+            out_expect.push((before, expected.clone(), sig_any));
+          }
+        }
+      }
+    }
   }
 
   // ---- classification: typeRef {absent, built-in, other} × components × isCollection
@@ -1036,6 +1277,10 @@ pub fn run(cfg: &Cfg) -> Report {
         "typed input: result differs from the specification (item definitions that refer to each other, in some order)".to_string()
       } else if c.family == "names" {
         "typed input: result differs from the specification (item definition named with blanks or additional symbols)".to_string()
+      } else if c.family == "item-typeref-white-space" {
+        "typed input: result differs from the specification (white space around the name an item definition refers to)".to_string()
+      } else if c.family == "any" {
+        "typed input: result differs from the specification (the type reference Any inside an item definition)".to_string()
       } else if has_coll_ref && !has_ref_av {
         "collection of a referenced type: a non-conforming item is replaced by null inside the list instead of the list becoming null".to_string()
       } else if has_ref_av && !has_coll_ref {
@@ -1057,6 +1302,21 @@ pub fn run(cfg: &Cfg) -> Report {
     }
     if c.family == "tree" && !conf && c.obs != "null" {
       rep.sample(json!({"value": c.value, "xml": c.xml, "implementation": c.obs, "model_spec_conforms": ans}));
+    }
+  }
+  for (ix, expected, what) in &any_expect {
+    let c = &cases[*ix];
+    let exp = value_sexp(&eval(expected)).map(|s| s.to_string()).unwrap_or_default();
+    rep.hit(&format!("any: against the written-out expectation ({})", if exp == "null" { "null" } else if c.value == *expected { "unchanged" } else { "partly nulled" }));
+    if c.obs != exp {
+      let sig = if what.contains("resembles") {
+        "typed input: a type reference that only resembles Any is taken for a type"
+      } else if *what == "white space" {
+        "typed input: white space around the name an item definition refers to makes the input null"
+      } else {
+        "typed input: a value in a position of the type Any (item definition, component or collection item) does not reach the decision logic as the written-out expectation says"
+      };
+      rep.disagree(Kind::ImplVsSpec, c.family, sig, &format!("value {} | {} | {}", c.value, c.xml, what), &c.obs, &exp);
     }
   }
   let reqs: Vec<String> = out_cases.iter().map(|c| c.req.clone()).collect();
@@ -1084,7 +1344,7 @@ pub fn run(cfg: &Cfg) -> Report {
   for (ix, expected, sig) in &out_expect {
     let c = &out_cases[*ix];
     let exp = if expected == "null" { "null".to_string() } else { value_sexp(&eval(expected)).map(|s| s.to_string()).unwrap_or_default() };
-    let family = if sig.contains("in some order") { "order" } else { "names" };
+    let family = if sig.contains("in some order") { "order" } else if sig.contains("contains Any") { "any" } else if sig.contains("white space around the name") { "item-typeref-white-space" } else { "names" };
     rep.hit(&format!("{}: typed result against the written-out expectation ({})", family, if exp == "null" { "null" } else { "a value" }));
     if c.obs != exp {
       rep.disagree(Kind::ImplVsSpec, family, sig, &format!("value {} | {}", c.value, c.xml), &c.obs, &exp);
